@@ -235,7 +235,7 @@ class AdvancedHTMLFormatter(HTMLParser):
         if data:
             inTag = self._inTag
             if len(inTag) > 0:
-                if inTag[-1].tagName not in PRESERVE_CONTENTS_TAGS:
+                if self.inPreformatted == 0 and inTag[-1].tagName not in PRESERVE_CONTENTS_TAGS:
                     data = data.replace('\t', ' ').strip('\r\n')
                     if data.startswith(' '):
                         data = ' ' + data.lstrip()
